@@ -20,7 +20,7 @@ from . import codecgen as G
 from . import common
 
 MODULES = ["CoapVerif.Props.C02", "CoapVerif.Findings.C02"]
-GENERATED = ["CodecConsts.lean", "OptionDefs.lean"]
+GENERATED = ["CodecConsts.lean", "OptionDefs.lean", "PoolRetry.lean"]
 PROP = "C02"
 
 ALPHA_Q = [0x00, 0x01, 0x0d, 0x10, 0x11, 0xd0, 0xe0, 0xf0, 0xff, 0x61]
@@ -131,6 +131,19 @@ def structured(rng, thorough):
             body = raw_opts(pairs) + b"\xffpayload"
             out.append((bytes([0x44, 0x45, 0xab, 0xcd, 1, 2, 3, 4]) + body, "udp"))
             out.append((_tcp(body, b"\x09\x08", 0x45), "tcp"))
+    # option counts around every power of two (the pooled retry doubles the capacity: 16, 32, … must all be passed);
+    # empty options with delta 0/1 keep the input small.  Kept (If-Match, empty), dropped (ETag, empty), half and half.
+    counts = [127, 128, 129, 255, 256, 257, 511, 512, 513, 1023, 1024, 1025, 1026, 2047, 2048, 2049, 4095, 4096, 4097]
+    if thorough:
+        counts += [8191, 8192, 8193, 16385, 32769]
+    for n in counts:
+        for first, second in ((1, None), (4, None), (1, 3)):
+            if second is None:
+                body = bytes([first << 4]) + b"\x00" * (n - 1)
+            else:
+                body = bytes([first << 4]) + b"\x00" * (n // 2 - 1) + bytes([second << 4]) + b"\x00" * (n - n // 2 - 1)
+            out.append((bytes([0x40, 0x01, n >> 8 & 0xff, n & 0xff]) + body, "udp"))
+            out.append((_tcp(body + b"\xffp", b"\x07", 1), "tcp"))
     # stream length classes and declared lengths that do not fit 32 bits
     for n in (0, 12, 13, 268, 269, 300):
         out.append((_tcp(b"\xff" + b"p" * (n - 1) if n else b"", b"", 1), "tcp"))
